@@ -34,11 +34,11 @@ TOL = 1e-8          # parameter stream and the oracle (norm-wise)
 # cond(C) <= 1e8 and 3e-10 at 1e9; histories are cut once cond(C) > 1e8.  A wrong coefficient changes
 # the result by 1e-2 or more.
 TOL_RUN = 1e-6
-RULE = ("fixed case list per (tier, seed): 37 structured + 1800 (thorough up to 6000, cut deterministically by a 1.5 GB protocol-volume cap) random histories, the parameter sweep "
+RULE = ("fixed case list per (tier, seed): 42 structured + 1800 (thorough up to 6000, cut deterministically by a 1.5 GB protocol-volume cap) random histories, the parameter sweep "
         "+ 150 (1500) random rate sets, 60 (600) sorts; QUICK EXPLORES DIMENSIONS 2..8 ONLY, 9..20 are thorough-only. "
         "params: dims 2..8 (thorough 2..20) x lambda 4..14 x mu {default, 1, lambda/3, lambda} x 3 schemes, plus "
         "random user-supplied rates; runs: random (dim, lambda>=4, mu<=lambda, scheme, default or user-supplied "
-        "cs/damps/ccum/ccov1/ccovmu, centroid given as floats / ints only (list, tuple, range, int ndarray, [0]*n) / mixed, "
+        "cs/damps/ccum/ccov1/ccovmu, in 30% of the histories lambda_ is changed (or left) and computeParams(params) re-called at a random generation, centroid given as floats / ints only (list, tuple, range, int ndarray, [0]*n) / mixed, "
         "sigma, identity/diagonal/random SPD cmatrix with cond 1e1..1e5, or a well-conditioned cmatrix carrying the scale "
         "(variances 1e-30..1e-16 and 1e8..1e20)) "
         "on sphere/rosenbrock/linear/ellipsoid/step(ties)/const/two-objective fitnesses for 1..50 generations "
@@ -509,7 +509,28 @@ def eval_run(d):
     degenerate = not (0.0 < float(st.cs) < 2.0) or float(st.damps) == 0.0
     if degenerate:
         tags.append("degenerate-cs")
+    relam = d.get("relam")
     for g in range(d["ngen"]):
+        if relam and g == relam[0]:
+            # the documented way of changing the population size during a run (docstring of computeParams:
+            # "needs to be called again if lambda changes during evolution"); relam[1] = None re-calls it unchanged
+            old = st.lambda_
+            newlam = relam[1] if relam[1] is not None else old
+            st.lambda_ = newlam
+            st.computeParams(st.params)
+            lines.append("C13 relambda %d %d %d %s %s %s" % (n, old, newlam, opt(d.get("mu"), str),
+                                                            d.get("scheme") or "superlinear", over_tokens(d)))
+            expect.append("%s %s" % (st.lambda_, params_answer(st)))
+            lam = newlam
+            mu = d["mu"] if d.get("mu") is not None else int(lam / 2)
+            if st.lambda_ != newlam:
+                fail("after `lambda_ = %d; computeParams(params)` the strategy's lambda_ is %r" % (newlam, st.lambda_), g)
+                break
+            e = check_params(st, n, lam, mu, d.get("scheme") or "superlinear", d.get("over", {}))
+            if e:
+                fail("after `lambda_ = %d; computeParams(params)`: %s" % (newlam, e), g)
+                break
+            tags.append("relambda")
         pre = snapshot(st)
         with tapemod.Tape(rng=random.Random(d["zseed"] * 1000 + g), numpy_too=True) as tp:
             pop = st.generate(Ind)
@@ -713,6 +734,14 @@ def rand_run(rng, maxdim, long_ok=True):
     r = rng.random()
     d["ngen"] = rng.randint(1, 4) if r < 0.55 else (rng.randint(5, 15) if r < 0.9 or not long_ok else rng.randint(16, 50))
     d["perm"] = rng.random() < 0.7
+    # re-parameterisation in the middle of the run: lambda_ changed (or not) + computeParams(params) re-called
+    r = rng.random()
+    if r < 0.3:
+        lo = max(4, d["mu"] or 0)
+        newlam = rng.choice([None, rng.randint(lo, lo + 2 * n), rng.randint(lo, lo + 2 * n)])
+        d["relam"] = [rng.randrange(d["ngen"]), newlam]
+    else:
+        d["relam"] = None
     return d
 
 
@@ -739,6 +768,16 @@ def generate(tier, rng, mult):
     d = rand_run(rng, maxdim)
     d.update({"ngen": 50, "obj": "linear", "fw": [-1.0], "cm": "spd3"})
     yield d
+    # lambda_ changed during the run, then computeParams(params) as documented (and a plain re-call)
+    for k in range(5):
+        d = rand_run(rng, maxdim, long_ok=False)
+        lo = max(4, d["mu"] or 0)
+        d.update({"ngen": max(d["ngen"], 3), "obj": rng.choice(["sphere", "rosenbrock", "linear"]), "fw": [-1.0],
+                  "relam": [k % 3, None if k == 4 else rng.randint(lo, lo + 12)]})
+        if k < 2:
+            d.update({"lam": None if k == 0 else d["lam"], "mu": None})
+            d["relam"][1] = rng.randint(9, 20)
+        yield d
     # start point given with integer coordinates only (numpy.array() of it is an integer array)
     for ctype in INT_CENTROIDS + ("mixed",):
         d = rand_run(rng, maxdim, long_ok=False)
@@ -807,7 +846,27 @@ def generate(tier, rng, mult):
 # shrinking / classification
 # ----------------------------------------------------------------------------------------
 
+def _valid_run(d):
+    """mu <= lambda at every point of the history (otherwise numpy.dot raises on the unmodified code too)"""
+    lam = d["lam"] if d.get("lam") is not None else int(4 + 3 * math.log(d["dim"]))
+    mu = d.get("mu")
+    if mu is not None and not (1 <= mu <= lam):
+        return False
+    r = d.get("relam")
+    if r and r[1] is not None and mu is not None and mu > r[1]:
+        return False
+    if r and r[0] >= d["ngen"]:
+        return False
+    return lam >= 2
+
+
 def shrink(d):
+    for c in _shrink(d):
+        if c.get("k") != "run" or _valid_run(c):
+            yield c
+
+
+def _shrink(d):
     if d.get("k") != "run":
         if d.get("k") == "sort" and d["keys"]:
             for i in range(len(d["keys"])):
@@ -816,10 +875,13 @@ def shrink(d):
             for k in list(d["over"]):
                 yield dict(d, over={a: b for a, b in d["over"].items() if a != k})
         return
+    def cut(d, k):
+        r = d.get("relam")
+        return dict(d, ngen=k, relam=(r if (r and r[0] < k) else None))
     if d["ngen"] > 1:
-        yield dict(d, ngen=1)
-        yield dict(d, ngen=d["ngen"] // 2)
-        yield dict(d, ngen=d["ngen"] - 1)
+        yield cut(d, 1)
+        yield cut(d, d["ngen"] // 2)
+        yield cut(d, d["ngen"] - 1)
     if d.get("over"):
         yield dict(d, over={})
         for k in list(d["over"]):
@@ -832,6 +894,10 @@ def shrink(d):
         yield dict(d, obj="sphere", fw=[-1.0])
     if d.get("perm"):
         yield dict(d, perm=False)
+    if d.get("relam"):
+        yield dict(d, relam=None)
+        if d["relam"][0] > 0:
+            yield dict(d, relam=[0, d["relam"][1]], ngen=max(1, d["ngen"] - d["relam"][0]))
     if d["dim"] > 2:
         yield dict(d, dim=2)
         yield dict(d, dim=d["dim"] - 1)
